@@ -64,11 +64,11 @@ def run(ctx: Ctx):
     mod = repo.module(BASE)
     fis = {n: repo.func(f"{BASE}.{n}") for n in FUNCS}
     for n, fi in fis.items():
-        layout_only(ctx, fi)
-    inverse_mirror(ctx, fis["unfold"], fis["fold"])
-    inverse_mirror(ctx, fis["partial_unfold"], fis["partial_fold"])
-    forward(ctx, fis["partial_tensor_to_vec"], fis["partial_unfold"], {"mode": 0, "ravel_tensors": True})
-    forward(ctx, fis["partial_vec_to_tensor"], fis["partial_fold"], {"mode": 0})
+        ctx.guarded(layout_only, ctx, fi)
+    ctx.guarded(inverse_mirror, ctx, fis["unfold"], fis["fold"])
+    ctx.guarded(inverse_mirror, ctx, fis["partial_unfold"], fis["partial_fold"])
+    ctx.guarded(forward, ctx, fis["partial_tensor_to_vec"], fis["partial_unfold"], {"mode": 0, "ravel_tensors": True})
+    ctx.guarded(forward, ctx, fis["partial_vec_to_tensor"], fis["partial_fold"], {"mode": 0})
 
 
 # ---------------------------------------------------------------------------------
